@@ -8,6 +8,32 @@ VERIF = os.path.dirname(os.path.dirname(os.path.abspath(__file__)))
 ALL = [f"C{i:02d}" for i in range(1, 21)]
 
 CHECKS = {
+    "C03": dict(
+        category="exploration",
+        technique="bounded-exhaustive enumeration of fragment strings, all prefixes and all single mutations of the corpus through the real indexing path, with a hard watchdog",
+        text=("Bounded-exhaustive enumeration: every sequence of <=2 (quick) / <=3 (thorough) lines over a ~130-fragment "
+              "alphabet (statement openers, END forms, directives, broken lines) in 4 file kinds, every line/character prefix "
+              "and every line/token-level mutation of every sample source is indexed by the real "
+              "LangServer.update_workspace_file, followed by documentSymbol and the diagnostics computation on the result; "
+              "any exception is a violation and a watchdog kills and reports any text that exceeds its time budget."),
+        note=("Trusted: the harness resets workspace/obj_tree/pp_defs of a long-lived server between texts. Texts outside "
+              "the fragment alphabet and longer than the corpus files are not covered."),
+        design="DESIGN.md §4 C03",
+    ),
+    "C08": dict(
+        category="model_checking",
+        technique="enumeration of all paths of the reference preprocessor automaton up to a directive bound, each replayed on the real preprocessor/parser; reference cross-checked against GNU cpp",
+        text=("The model is the refcpp automaton (conditional stack x macro table). Every directive skeleton up to the size "
+              "and nesting bound x every initial definition set — i.e. every path of the model's state graph within the "
+              "bound — is replayed through the real FortranFile.parse of a preprocessed file; active lines, indexed "
+              "declarations and the final macro table must agree with the model on every path. A second family enumerates "
+              "all macro bodies up to a length bound for object-/function-like substitution, compared character for "
+              "character. refcpp itself is compared with GNU cpp on a slice of the family on every run."),
+        note=("Trusted: vf/refcpp.py (cross-validated against GNU cpp; disagreement aborts the check as broken). Inputs on "
+              "which the C preprocessor is undefined are excluded. Bounds: <=5/<=6 directives, nesting 2, names A,B, 21 "
+              "#if expressions, 7 definition sets; macro bodies <=3/<=4 atoms."),
+        design="DESIGN.md §4 C08",
+    ),
     "C01": dict(
         category="model_checking",
         technique="explicit-state BFS over message histories through the real LangServer.run loop, heap-canonical state identity, refrpc oracle",
